@@ -109,6 +109,9 @@ def _origin(cfg, rd, node, e, depth, seen):
             i = ident[e.func.id]
             if i < len(e.args) and not any(isinstance(a, ast.Starred) for a in e.args[:i + 1]):
                 return _origin(cfg, rd, node, e.args[i], depth + 1, seen)     # f(x) is x when f returns its argument
+        if isinstance(e.func, ast.Name) and e.func.id == "iter" and len(e.args) == 1 and not e.keywords and not isinstance(e.args[0], ast.Starred) \
+                and not rd.get(node.id, {}).get("iter"):
+            return _origin(cfg, rd, node, e.args[0], depth + 1, seen)      # iter(x) yields the elements of x
         return ("call", _origin(cfg, rd, node, e.func, depth + 1, seen),
                 tuple(_origin(cfg, rd, node, a, depth + 1, seen) for a in e.args),
                 tuple((k.arg, _origin(cfg, rd, node, k.value, depth + 1, seen)) for k in e.keywords))
